@@ -33,8 +33,8 @@ int64_t wsLen(Prng& r, int tier)
 	int64_t hi = 3000;
 	if (r.below(4) == 0)
 		hi = 70000;
-	if (tier && r.below(40) == 0)
-		hi = 4 * 1024 * 1024;
+	if (r.below(tier ? 40 : 400) == 0)
+		hi = 4 * 1024 * 1024; // beyond 1 MiB even in the quick tier, rarely (block-wise senders change behaviour there)
 	return biased(r, 1, hi, {1, 125, 126, 127, 65535, 65536, 65537});
 }
 
